@@ -252,11 +252,15 @@ fn run_fb(c: &J) -> J {
         _ => "x".to_string(),
     };
     let day = 20000i64;
-    let exp = match c["exp"].as_str().unwrap_or("none") {
-        "future" => (day + 10).to_string(),
-        "now" => day.to_string(),
-        "past" => (day - 10).to_string(),
-        _ => String::new(),
+    // the shadow field holds whole days; the login instant is moved instead for the sub-day classes
+    let (exp, after_s) = match c["exp"].as_str().unwrap_or("none") {
+        "future" => ((day + 10).to_string(), 0i64),
+        "now" => (day.to_string(), 0),
+        "past_1s" => (day.to_string(), 1),
+        "past_12h" => (day.to_string(), 12 * 3600),
+        "past_1d" => (day.to_string(), 24 * 3600 - 1),
+        "past" => ((day - 10).to_string(), 0),
+        _ => (String::new(), 0),
     };
     let mut passwd = String::from("other:x:1001:1001:o:/home/other:/bin/sh\n");
     let mut shadow = format!("other:{H_SHA512}:19000:0:99999:7:::\n");
@@ -273,7 +277,7 @@ fn run_fb(c: &J) -> J {
         pin: "value".into(), msg: "ok".into(), grant: "ok".into(), pins: Mutex::new(0),
     };
     let opts = ModuleOptions { debug: false, use_first_pass: b(c, "ufp"), ignore_unknown_user: b(c, "iuu") };
-    let now = OffsetDateTime::UNIX_EPOCH + time::Duration::days(day);
+    let now = OffsetDateTime::UNIX_EPOCH + time::Duration::days(day) + time::Duration::seconds(after_s);
     let res = match catch(|| pam_core::sm_authenticate_fallback(&h, &opts, now, users, sh)) {
         Ok(c) => code(c),
         Err(_) => "panic".to_string(),
